@@ -390,7 +390,7 @@ def run_launch(tier, seed, fails, mism, tags, samples):
                     g = real_geometry(n, block)
                     total = n + slack
                     args = [exe, str(n), str(total)] + ([str(g["global"])] if tg == "opencl" else [str(g["grid"]), str(g["block"])] if tg == "cuda" else [])
-                    q = subprocess.run(args, capture_output=True, text=True, timeout=60)
+                    q = subprocess.run(args, capture_output=True, text=True, timeout=60, preexec_fn=common._unlimit_memory)
                     rows = [l.split() for l in q.stdout.splitlines()]
                     cnt = np.array([int(a) for a, _ in rows], dtype=np.int64)
                     y = np.array([float(b) for _, b in rows])
